@@ -74,8 +74,8 @@ JudgeLoop(e) ==
 JudgeRepeat(e) == When(~e.same, "signing the same message again gave different bytes")
 
 JudgeSampler(e) ==
-  CASE e.kind = "rejuniform" -> When(SubSeq(RejUniform(e.buf), 1, e.ctr) # e.out \/ Len(RejUniform(e.buf)) # e.ctr, "rejUniform differs from the 23-bit rejection sampler")
-    [] e.kind = "rejeta" -> When(SubSeq(RejEta(e.buf), 1, e.ctr) # e.out \/ Len(RejEta(e.buf)) # e.ctr, "rejEta differs from the nibble rejection sampler")
+  CASE e.kind = "rejuniform" -> When(Len(RejUniform(e.buf)) # e.ctr \/ RejUniform(e.buf) # e.out, "rejUniform differs from the 23-bit rejection sampler")
+    [] e.kind = "rejeta" -> When(Len(RejEta(e.buf)) # e.ctr \/ RejEta(e.buf) # e.out, "rejEta differs from the nibble rejection sampler")
     [] e.kind = "challenge" -> When(Challenge(ChallengeStream(e.buf)) # e.out, "polyChallenge differs from the specified sampler")
     [] e.kind = "gamma1" -> When(Gamma1Poly(Gamma1Stream(e.buf, e.ctr)) # e.out, "polyUniformGamma1 differs from the specified sampler")
     [] e.kind = "uniform" -> When(RejUniform(Hash(SHAKE128, e.buf \o Le16(e.ctr), 1008)) # e.out, "polyUniform differs from the specified sampler")
